@@ -351,6 +351,65 @@ func runC05(r *mc.Run) {
 		}
 		r.Eval(id, c.Deviations() > 0, fmt.Sprintf("opt%d:cond=%v/%s", opt, cond, out))
 	})
+	c05Positions(r, envs[0])
+}
+
+// c05Positions: the revoked certificate's entry at EVERY index of CRLs of several sizes (one entry .. 300 entries;
+// sizes around powers of two), for the leaf in the PCK CRL and for the intermediate CA and the two collateral signers
+// in the Root CA CRL: listed is listed, wherever the entry sits. A clean CRL of each size is the control.
+func c05Positions(r *mc.Run, e *c05env) {
+	w, pki := e.w, e.pki
+	type job struct {
+		target string
+		n, at  int
+	}
+	var jobs []job
+	for _, n := range []int{1, 2, 8, 16, 17, 31, 32, 33, 34, 40, 48, 64, 65, 100, 300} {
+		for at := -1; at < n; at++ {
+			jobs = append(jobs, job{"leaf", n, at})
+			if n == 33 || n == 48 || n == 100 {
+				jobs = append(jobs, job{"intermediate", n, at}, job{"tcbinfo-signer", n, at}, job{"qeidentity-signer", n, at})
+			}
+		}
+	}
+	done := r.Parallel(len(jobs), func(i int) {
+		j := jobs[i]
+		id := fmt.Sprintf("crl-position/%s/entries=%d,at=%d", j.target, j.n, j.at)
+		if !r.Want(id) {
+			return
+		}
+		sn := map[string]*big.Int{"leaf": e.leafSN, "intermediate": e.interSN, "tcbinfo-signer": e.tcbSN, "qeidentity-signer": e.qeSN}[j.target]
+		var list []*big.Int
+		for k := 0; k < j.n; k++ {
+			if k == j.at {
+				list = append(list, sn)
+			} else {
+				list = append(list, big.NewInt(int64(900000+7*k)))
+			}
+		}
+		g := w.Getter.Clone()
+		g.Responses[world.URLQeIdentity] = world.Response{Header: map[string][]string{world.HdrQeIdentity: {world.IssuerChainHeader(e.tcb2, pki.Root)}},
+			Body: world.SignedBody("enclaveIdentity", w.QeRaw, e.tcb2Key)}
+		if j.target == "leaf" {
+			g.Responses[world.URLPckCrl("platform")] = world.Response{Header: w.PckHdr, Body: world.MakeCRL(world.CRLSpec{Issuer: pki.Inter, Signer: pki.InterKey, Revoked: list})}
+		} else {
+			g.Responses[world.RootCRLURL] = world.Response{Body: world.MakeCRL(world.CRLSpec{Issuer: pki.Root, Signer: pki.RootKey, Revoked: list})}
+		}
+		now := w.Now
+		err := world.SafeVerifyRaw(w.Raw(), &verify.Options{GetCollateral: true, CheckRevocations: true, Getter: g, Now: &now, TrustedRoots: w.Roots})
+		out := verdict(err)
+		switch {
+		case world.IsPanic(err):
+		case j.at >= 0 && err == nil:
+			r.Violate("accepted:position:"+j.target, id, fmt.Sprintf("quote accepted with revocation checking although entry %d of the %d-entry CRL lists the %s certificate", j.at, j.n, j.target), nil)
+			out = "accept!"
+		case j.at < 0 && err != nil:
+			r.Violate("rejected-clean:position", id, "quote rejected although the CRL lists none of its certificates: "+errStr(err), nil)
+			out = "reject!"
+		}
+		r.Eval(id, true, fmt.Sprintf("position:listed=%v/%s", j.at >= 0, out))
+	})
+	r.SectionDone(mc.Section{Name: "crl-entry-positions", Evaluations: int64(done), Exhaustive: done == len(jobs), Note: "every index of CRLs of 15 sizes (leaf), of 3 sizes (intermediate and the two collateral signers)"})
 }
 
 func c05Why(pckBenign, rootBenign, pckSigOK, rootSigOK bool, pep, rep, dp, rootSet string) string {
